@@ -186,7 +186,30 @@ fn c20(rng: &mut Rng, tier: &str, idx: usize) -> Case {
 
 // ---------------------------------------------------------------- ontology cases
 
-fn onto_case(rng: &mut Rng, prop: &str, _idx: usize) -> Case {
+fn onto_case(rng: &mut Rng, prop: &str, idx: usize) -> Case {
+    if idx % 40 == 7 {
+        // deep chains (depth 40..110, beyond any shipped ontology), terms supplied leaf first,
+        // root first or shuffled: recursion depth of the closure / link computation
+        let mut c = Case::new("deep-chain");
+        let n = rng.range(40, 110) as usize;
+        let f = gen_deep_chain(rng, n);
+        let order = rng.below(3);
+        deep_prog(rng, &f, 0, order == 0, order == 2, &mut c);
+        c.stat("deep_chain_terms", n as u64);
+        c.stat(&format!("deep_order_{order}"), 1);
+        facts_stats(&f, &mut c);
+        c.op("dump 0".to_string());
+        match prop {
+            "C01" => {
+                c.op("oracle closure 0".to_string());
+            }
+            "C02" => c.op("oracle inherit 0".to_string()),
+            "C03" => c.op("oracle ic 0".to_string()),
+            _ => {}
+        }
+        c.nontrivial = true;
+        return c;
+    }
     // construction path: Builder API, or the binary format v1/v2/v3 (harness-encoded records)
     let path = rng.below(5);
     let mut c = Case::new(if path < 2 { "builder" } else { "bytes" });
@@ -248,7 +271,22 @@ fn c15(rng: &mut Rng, _idx: usize) -> Case {
     c
 }
 
-fn c16(rng: &mut Rng, tier: &str, _idx: usize) -> Case {
+fn c16(rng: &mut Rng, tier: &str, idx: usize) -> Case {
+    if idx % 25 == 3 {
+        // a deep chain built leaf first, root first and shuffled: all three must be identical
+        let mut c = Case::new("deep-chain-orders");
+        let n = rng.range(40, 100) as usize;
+        let f = gen_deep_chain(rng, n);
+        deep_prog(rng, &f, 0, false, false, &mut c);
+        deep_prog(rng, &f, 1, true, false, &mut c);
+        deep_prog(rng, &f, 2, false, true, &mut c);
+        c.op("same 0 1".to_string());
+        c.op("same 0 2".to_string());
+        c.op("dump 0".to_string());
+        c.stat("deep_chain_terms", n as u64);
+        c.nontrivial = true;
+        return c;
+    }
     let mut c = Case::new("permutations");
     let k = if tier == "quick" { 4 } else { 12 };
     let with_roots = rng.chance(1, 2);
